@@ -1,5 +1,5 @@
 (* C13 — DAG: a task starts only after all its dependencies have finished successfully. *)
-From GO Require Import Base.Str Model.Tree Model.Dag Proofs.DagHold Proofs.DagInv Proofs.DagBuild.
+From GO Require Import Base.Str Model.Tree Model.Dag Proofs.DagHold Proofs.DagInv Proofs.DagBuild Proofs.DagOnce.
 
 (* Graph.Run as a transition system (Model/Dag.v): the scheduler loop, one thread per launched
    vertex, the semaphore, the Task lock, the helper goroutines, the environment (task outcomes,
@@ -69,3 +69,29 @@ Theorem C13_attempts :
                       then Finished r else Running (S k)).
 Proof. exact attempts. Qed.
 Print Assumptions C13_attempts.
+
+(* each task's function is started at most once in a run: no schedule contains two starts of the
+   same vertex *)
+Theorem C13_started_at_most_once :
+  forall g cf, (forall p c, In c (children g p) <-> In p (parents g c)) ->
+  forall ls1 ls2 ls3 st0 st v,
+    Inv g cf st0 -> dsteps g cf st0 (ls1 ++ LStart v :: ls2 ++ LStart v :: ls3) = Some st -> False.
+Proof. exact started_at_most_once. Qed.
+Print Assumptions C13_started_at_most_once.
+
+(* the thread of a vertex only moves forward: not spawned, waiting, attempt 0, 1, ..., finished,
+   gone; in particular attempts are strictly one after another and none is repeated *)
+Theorem C13_thread_only_moves_forward :
+  forall g cf, (forall p c, In c (children g p) <-> In p (parents g c)) ->
+  forall ls st st' v, Inv g cf st -> dsteps g cf st ls = Some st' ->
+    tle (trank (d_thread st v)) (trank (d_thread st' v)).
+Proof. exact threads_forward. Qed.
+Print Assumptions C13_thread_only_moves_forward.
+
+(* with R retries the attempts are numbered 0..R: at most R+1 entries *)
+Theorem C13_attempts_bounded :
+  forall g cf ls st v k,
+    dsteps g cf (init_state []) ls = Some st -> d_thread st v = Running k -> (Z.of_nat k <= retries g v)%Z.
+Proof. exact attempts_bounded. Qed.
+Print Assumptions C13_attempts_bounded.
+
